@@ -1,19 +1,82 @@
-"""Per-property metadata used in evidence files (level, explanation, assumptions)."""
+"""Per-property metadata used in evidence files and MANIFEST.json (level, technique, explanation, assumptions)."""
 
 A_FP = 'A1: Python/numpy floats are treated as mathematical reals (rounding, overflow, nan invisible to the proofs)'
+A_INT = 'A2: Python ints are mathematical integers (exact)'
 A_ASSERT = 'A3: assert statements execute (interpreter not run with -O)'
-A_NUMPY = 'A4: numpy axiomatisation of elementwise ops, broadcasting, views vs copies, masked stores (cross-checked by the concrete differential replay)'
+A_NUMPY = 'A4: numpy axiomatisation of elementwise ops, broadcasting, views vs copies, masked stores, zeros/ones/copy/where/reshape (cross-checked by the concrete differential replay on the real numpy)'
 A_TYPES = 'A7: type lists hold pairwise distinct hashable labels and are not mutated after a table is built'
+A_RANK = 'ranks / type-list lengths are unrolled (1..4, matching the bound the property quotes); array lengths, grid sizes and all numeric values are symbolic and unbounded'
+A_EXT = 'A5: assumed (unverified) contracts on external functions: %s'
+A_TRANS = 'exp/log/sin/sqrt are uninterpreted functions with only: exp>0, sqrt(x)>=0 and sqrt(x)^2=x for x>=0; pi is a real constant with 3.14159<pi<3.1416'
+
+TECH = 'contract refinement proof: symbolic execution of the real function bodies (ast -> z3) against sidecar spec functions and postconditions, SMT-discharged (z3, cvc5); counter-models replayed on the real code'
 
 PROPS = {
-    'C09': {
-        'level': 'proof',
-        'explanation': 'Each closure calculate() body is symbolically executed from the current source and shown equal, for every gamma/u/r/sigma and every array length, to the pointwise spec F(gamma_i,u_i) / -1-gamma_i taken from the property statement (return value, stored value, frame, raised exceptions); Taylor and alias clauses are lemmas over those specs.',
-        'assumptions': [A_FP, A_ASSERT, A_NUMPY, 'exp/sqrt uninterpreted with exp>0, sqrt(x)^2=x (x>=0)', 'r and gamma have the same length (call sites pass the domain grid)'],
-    },
     'C03': {
         'level': 'proof',
-        'explanation': 'Closure and hard-core potential bodies are verified against pointwise specs; the core clauses (c+gamma=-1 for r<=sigma; u=high_value for r<=sigma; exp underflow route) are lemmas over those specs, and g=residual/r inside the core is a lemma over the contract of PRISM.cost.',
-        'assumptions': [A_FP, A_ASSERT, A_NUMPY, 'IEEE underflow axiom: x <= -745.2 => exp(x) == 0 (only for the PY/HNC-without-flag clause)'],
+        'technique': TECH,
+        'explanation': 'Closure bodies: on the code\'s own post-state, value[i]+gamma[i]==-1 wherever r[i]<=sigma for every flagged closure, every gamma/r/sigma/length (generic index). Hard-core potentials (HardSphere, HardCoreLennardJones, Exponential) are refined against specs with u[i]==high_value for r[i]<=sigma. PY/HNC without the flag: lemma over the C09 spec functions with the IEEE underflow instance exp(x)=0 for x<=-745.2. g = residual/r inside the core: lemma over the contract of PRISM.cost.',
+        'assumptions': [A_FP, A_ASSERT, A_NUMPY, 'IEEE underflow fact used only in the no-flag lemma: x <= -745.2 => exp(x) == 0 (libm); in that lemma exp>0 is not assumed'],
     },
+    'C07': {
+        'level': 'proof',
+        'technique': TECH + '; class invariant wf(Domain) established by the constructor and preserved by every setter (induction over setter histories)',
+        'explanation': 'Domain.__init__/build_grid/dr,dk,length setters are refined against specs and shown to establish/preserve wf(D): len(r)=len(k)=length, r_i=(i+1)dr, k_j=(j+1)dk, dr*dk*length=pi, DST coefficient arrays, long_r; after every setter the domain equals Domain(length,dr) field by field. to_fourier/to_real are refined against the DST-II/III formulas; the MatrixArray versions transform every pair function a<=b from the old data, write both triangles, flip the flag, and raise ValueError iff already in the target space. Round trip and linearity: lemmas over those contracts under wf(D) and the assumed DST inverse pair.',
+        'assumptions': [A_FP, A_INT, A_NUMPY, A_RANK, A_EXT % 'scipy.fftpack.dst types 2/3 are the defining sine sums, linear, and dst3(dst2(x)) = 2N x (bounded run-time check only)', A_TRANS],
+    },
+    'C09': {
+        'level': 'proof',
+        'technique': TECH,
+        'explanation': 'Each closure calculate() body is symbolically executed from the current source and shown equal, for every gamma/u/r/sigma and every array length, to the pointwise spec F(gamma_i,u_i) / -1-gamma_i taken from the property statement (return value, stored value, frame: inputs unmodified, raised exceptions); elementwise by construction of the pointwise terms; Taylor (c=-u+O(2)) and alias clauses are lemmas over those specs and the class definitions.',
+        'assumptions': [A_FP, A_ASSERT, A_NUMPY, A_TRANS, 'r and gamma have the same length (call sites pass the domain grid)'],
+    },
+    'C10': {
+        'level': 'proof',
+        'technique': TECH,
+        'explanation': 'Each potential calculate() body (pre-state produced by running the real constructor symbolically, so the captured lambda is the shipped one) is refined against the documented u(r) for all parameters, grids and lengths: core/tail split at sigma, LJ cut/shift paths, WCA with c^6=2; frame (r unmodified), repeatability (re-evaluation after re-assignment of sigma/rcut/shift). Sigma defaulting: Diameter contracts + PRISM.__init__. Contact clause decided in reals against the tolerance literal of System.check.',
+        'assumptions': [A_FP, A_ASSERT, A_NUMPY, A_TRANS, 'A6: direct mutation of epsilon/alpha/high_value captured by the constructor lambda is outside the public API considered'],
+    },
+    'C11': {
+        'level': 'other',
+        'technique': TECH + '; inductive lemmas (closed form == pair sum) by z3; floating-point behaviour, quadrature and Koyama moments only by a bounded stand-in',
+        'explanation': 'Gaussian/FJC calculate() refined against closed(E,N) for symbolic integer N; GaussianRing against the sum over separations (unrolled N<=6 plus loop-invariant form); SingleSite/NoIntra constant; DiscreteKoyama.calculate pair counting (each separation n visited N-n times) and constructor rejections. Lemmas: closed form == (1/N) sum_ij E^|i-j| (induction step as polynomial identity), limits k->0 (N), k->inf (1), bound <= N for |E|<=1. Out of reach and bounded only: NFJC quadrature, Koyama kernel formulas, IEEE cancellation at small k.',
+        'assumptions': [A_FP, A_INT, A_NUMPY, A_TRANS, 'DiscreteKoyama.koyama_kernel_fourier / kernel_base / cos averages are opaque trusted helpers (no independent spec exists)', 'NonOverlappingFreelyJointedChain.calculate (fixed-grid quadrature) is outside the verified subset: bounded stand-in only'],
+    },
+    'C12': {
+        'level': 'proof',
+        'technique': TECH,
+        'explanation': 'FromArray/FromFile constructors and calculate() refined against specs: stored value is a fresh copy of the caller\'s array; calculate raises AssertionError iff length or k column mismatch (allclose as assumed predicate), otherwise returns the stored data verbatim; PairTable.exportToMatrixArray raises ValueError iff pair lengths differ; MatrixArray.dot raises on unequal lengths (assumed einsum rule), so a wrong-length one-column file cannot survive the first cost evaluation.',
+        'assumptions': [A_FP, A_ASSERT, A_NUMPY, A_RANK, A_EXT % 'np.loadtxt shapes (2-D for two columns, 1-D for one column, 0-d for one number), np.allclose as an uninterpreted predicate, np.einsum length rule'],
+    },
+    'C13': {
+        'level': 'proof',
+        'technique': TECH,
+        'explanation': 'Every MatrixArray method and IdentityMatrixArray.__init__ refined against whole-view specs: constructor (zeros / aliasing the given data, asserts), __setitem__ writes both (a,b) and (b,a) and nothing else, __getitem__/get return views, ValueError on unknown types, + - * / and in-place forms with MatrixArray / scalar / broadcastable ndarray operands (result fresh vs. in place: storage tokens), space rule over all 9 flag pairs, dot/@/@=/invert against assumed einsum/inv contracts, get_copy fresh.',
+        'assumptions': [A_FP, A_ASSERT, A_NUMPY, A_RANK, A_EXT % 'np.einsum("lij,ljk") is the per-l matrix product, np.linalg.inv(A) is a two-sided inverse of A'],
+    },
+    'C14': {
+        'level': 'proof',
+        'technique': TECH + '; whole-view postconditions give the map semantics for every history by induction',
+        'explanation': 'Table.listify and every PairTable/ValueTable method refined against keyed-map specs for type lists of 1..4 distinct labels: __setitem__ with single keys and lists stores an independent deep copy per pair (alias structure compared), both orientations, nothing else changed; __getitem__, __iter__, iterpairs for the three flag combinations in type-list order, check raises ValueError iff some entry is None, setUnset fills exactly the unset entries, apply in/out of place, exportToMatrixArray.',
+        'assumptions': [A_TYPES, A_RANK, A_EXT % 'copy.deepcopy returns a structurally equal object graph disjoint from the original', A_NUMPY],
+    },
+    'C15': {
+        'level': 'proof',
+        'technique': TECH + '; representation invariants as postconditions of constructor and __setitem__ (induction over assignment histories)',
+        'explanation': 'Density/Diameter __init__, __setitem__ (single type or list, any subset already assigned, re-assignment), __getitem__, check refined against specs and shown to re-establish Inv_rho (pair=rho_a rho_b, site diag rho_a / off-diag rho_a+rho_b, total=sum) and Inv_d (sigma=(d_a+d_b)/2, volume=pi d^3/6) for every assigned subset.',
+        'assumptions': [A_FP, A_TYPES, A_RANK, A_NUMPY],
+    },
+}
+
+NOT_APPLICABLE = {
+    'C18': 'Debyer is a Cython/OpenMP extension that is not built and cannot be built here (np.int removed from the pinned numpy); no running code to bind a contract to, and the property is about thread schedules and reduction order, on which contract-based deductive verification is silent',
+    # provisional while their contracts are being built (moved to checks as they land):
+    'C01': 'contracts for PRISM.cost/solve under construction in this tree; not yet claimed',
+    'C02': 'numerical agreement with Wertheim-Thiele / discretisation error under refinement is not expressible as a contract on these functions; dilute-limit lemmas under construction; not yet claimed',
+    'C04': 'relational lemmas over the PRISM.cost contract under construction; not yet claimed',
+    'C05': 'contracts for calculate/* under construction; not yet claimed',
+    'C06': 'contracts for calculate/* under construction; not yet claimed',
+    'C08': 'prefactor identities under construction; not yet claimed',
+    'C16': 'contracts for System/PRISM.__init__ under construction; not yet claimed',
+    'C17': 'quantity-algebra contracts under construction; not yet claimed',
 }
